@@ -464,10 +464,18 @@ EXTRA = {
     'C07': ' Evaluated tier R6: concrete proximals at designated points '
            'satisfy the first-order optimality condition of the proximal '
            'problem (sub-gradient intervals at kinks, normal cones for '
-           'projections).',
+           'projections).  R6d: about 135 instances (norms, unit balls, '
+           'simplex, group norms, Huber on vector fields, conjugates, '
+           'derived functionals, factories with lam / g, separable sums, '
+           'nuclear norm with a 2x2 SVD model) must have finite f(p) and no '
+           'descent of f(z) + ||z-x||^2/(2 sigma) along 34 rays from p, the '
+           'one-sided slopes computed by jet expansion of the functional\'s '
+           'own value (a necessary condition).',
     'C08': ' Evaluated tier R5: Fenchel-Young equality at the gradient, '
            'biconjugate values and the Moreau decomposition of concrete '
-           'functionals at designated points on weighted model spaces.',
+           'functionals at designated points on weighted model spaces '
+           '(76 instances incl. norms / dual unit balls, group and nuclear '
+           'norms), plus the Fenchel-Young inequality at y = g/2, 2g.',
     'C10': ' Evaluated tier R3: proximals and default operators called '
            'with out aliased to the input on model spaces.',
     'C09': ' Evaluated tier R6: gradient(x) and derivative(x)(d) of concrete '
